@@ -84,6 +84,31 @@ func stRemoveAll(name string) modelStep {
 func stRename(a, b string) modelStep {
 	return modelStep{fmt.Sprintf("rename %q -> %q", a, b), func(fs afero.Fs) error { return fs.Rename(a, b) }}
 }
+func stSymlink(target, link string) modelStep {
+	return modelStep{fmt.Sprintf("symlink %q -> %q", link, target), func(fs afero.Fs) error {
+		if l, ok := fs.(afero.Linker); ok {
+			return l.SymlinkIfPossible(target, link)
+		}
+		return nil
+	}}
+}
+
+// stWriteThenRemoveParent: a handle is written, its parent directory removed recursively, then the handle closed
+func stWriteThenRemoveParent(dir, name string) modelStep {
+	return modelStep{fmt.Sprintf("create %q; write; removeall %q; close", name, dir), func(fs afero.Fs) error {
+		f, err := fs.Create(name)
+		if err != nil {
+			return err
+		}
+		f.Write([]byte("late"))
+		if err := fs.RemoveAll(dir); err != nil {
+			f.Close()
+			return err
+		}
+		f.Close() // the reference keeps the unlinked file writable; only the resulting tree is compared
+		return nil
+	}}
+}
 func stChmod(name string, m os.FileMode) modelStep {
 	return modelStep{fmt.Sprintf("chmod %q %o", name, m), func(fs afero.Fs) error { return fs.Chmod(name, m) }}
 }
@@ -198,8 +223,28 @@ func modelHistories() map[string][]modelStep {
 			stRemove("/d/none"), stRename("/none", "/other"), stWrite("/d/x", "x"), stRemove("/d"), stRename("/d", "/d/inside"), stMkdirAll("/p/q/r"),
 			stWrite("/p/q/r/leaf", "leaf"), stMkdirAll("/p/q"), stMkdirAll("/f/q"), stChmod("/p/q/r/leaf", 0o600), stChmod("/none", 0o600),
 		},
+		"rename-spellings": {
+			stMkdir("/a"), stWrite("/a/x.txt", "x"), stWrite("/file.txt", "f"), stWrite("/y.txt", "y"),
+			stRename("/y.txt", "/file.txt/y.txt"), stRename("/a", "/a/b"), stRename("/a/", "/a/c"), stRename("/a", "/a/./d"),
+			stMkdir("/p"), stWriteThenRemoveParent("/p", "/p/late.txt"),
+		},
+		"nested-same-names": {
+			stMkdirAll("/d/d/d"), stWrite("/d/d/d/d", "deep"), stMkdirAll("/a/x/a"), stWrite("/a/x/a/y", "y"), stWrite("/a/y", "top"),
+			stRemove("/a/x/a/y"), stRename("/d/d", "/d/e"),
+		},
 		"overwrite-sizes": {
 			stWrite("/s", big), stWrite("/s", "short"), stWrite("/s", ""), stWrite("/s", big+big), stWrite("/t", ""), stRename("/t", "/s"),
+		},
+	}
+}
+
+// modelNoReference: histories whose steps the OS reference renders differently by design (stfs lists a link with its
+// target's attributes); they are compared between the running and the rebuilt instance only.
+func modelNoReference() map[string][]modelStep {
+	return map[string][]modelStep{
+		"symlinks": {
+			stWrite("/target.txt", "target"), stMkdir("/dir"), stSymlink("/target.txt", "/link"), stSymlink("/target.txt", "/dir/link2"),
+			stWrite("/other", "o"),
 		},
 	}
 }
@@ -224,6 +269,13 @@ func TestVerifReplay_Model(t *testing.T) {
 		return
 	}
 	hs := modelHistories()
+	noRef := map[string]bool{}
+	if mode == "rebuild" {
+		for n, h := range modelNoReference() {
+			hs[n] = h
+			noRef[n] = true
+		}
+	}
 	var names []string
 	for n := range hs {
 		names = append(names, n)
@@ -238,6 +290,9 @@ func TestVerifReplay_Model(t *testing.T) {
 		for i, st := range hs[hn] {
 			e1, e2 := st.run(real), st.run(ref)
 			done = append(done, st.name)
+			if noRef[hn] {
+				e2 = e1
+			}
 			if (e1 == nil) != (e2 == nil) && !modelKnownDifference(hn, st.name) {
 				t.Errorf("FAILING-INPUT: history %s, step %d (%s): stfs returned %v, the reference filesystem returned %v; history so far: %s", hn, i, st.name, e1, e2, strings.Join(done, "; "))
 			}
@@ -246,6 +301,9 @@ func TestVerifReplay_Model(t *testing.T) {
 				t.Errorf("FAILING-INPUT: history %s, after step %d (%s): walking stfs: %v", hn, i, st.name, err)
 			}
 			tb, _ := modelTree(ref, true)
+			if noRef[hn] {
+				tb = ta
+			}
 			if d := modelDiff(ta, tb); len(d) > 0 {
 				t.Errorf("FAILING-INPUT: history %s, after step %d (%s): trees differ: %s; history so far: %s", hn, i, st.name, strings.Join(d, " | "), strings.Join(done, "; "))
 				break
